@@ -153,7 +153,7 @@ def _call_name(f):
 
 def _timeslot_parts(e, env):
     """If e denotes Timeslot(a, b) (directly, via a single-def local, or via _get_event_period(x)) -> (a_form, b_form)."""
-    if isinstance(e, ast.Name) and env.fi is not None and env.inline_locals and e.id not in env.subst:
+    if isinstance(e, ast.Name) and env.fi is not None and e.id not in env.subst:
         v = single_def(env.fi, e.id)
         if v is not None:
             return _timeslot_parts(v, env)
@@ -281,6 +281,8 @@ def lin(e, env=None):
                 return Form.atom(f"{nm}(" + "; ".join(repr(f) for f in uniq) + ")")
         if nm in ("float", "int") and len(e.args) == 1 and nm == "float":
             return lin(e.args[0], env)
+        if nm == "len" and len(e.args) == 1 and isinstance(e.args[0], (ast.Name, ast.Attribute, ast.Subscript)):
+            return Form.atom(f"len({_atom_text(e.args[0], env)})")
         raise NonAffine(f"call {nm or norm(e.func)}")
     if isinstance(e, ast.IfExp):
         raise NonAffine("conditional expression")
@@ -446,3 +448,63 @@ def is_floor_ms(c, us):
     v = ("v", us)
     fd = ("fdiv", v, ("c", 1000))
     return c in (("mul", ("c", 1000), fd), ("sub", v, ("mod", v, ("c", 1000))))
+
+
+def normalize_lits(lits):
+    """Combine literals over the same form:  f <= 0 and f != 0  ->  f < 0 ;  f <= 0 and -f <= 0  ->  f == 0."""
+    lits = set(lits)
+    changed = True
+    while changed:
+        changed = False
+        for l in list(lits):
+            if l.op == "<=":
+                ne = Lit(l.form, "!=")
+                if ne in lits:
+                    lits.discard(l)
+                    lits.discard(ne)
+                    lits.add(Lit(l.form, "<"))
+                    changed = True
+                    break
+                opp = Lit(-l.form, "<=")
+                if opp in lits and opp != l:
+                    lits.discard(l)
+                    lits.discard(opp)
+                    lits.add(Lit(l.form, "=="))
+                    changed = True
+                    break
+    return lits
+
+
+def infeasible(lits):
+    """Pairwise interval check: two literals over the same direction that cannot hold together
+    (f + c1 < 0 and -f + c2 < 0 with c2 >= -c1, etc.).  Not a solver: only opposite/identical directions."""
+    ls = [l for l in lits if l.op in ("<", "<=", "==")]
+    for i, a in enumerate(ls):
+        for b in ls[i + 1 :]:
+            fa = Form(a.form.terms)
+            fb = Form(b.form.terms)
+            if not fa.terms:
+                continue
+            if fa == -fb:
+                # a: fa + ca (op) 0  => fa <(=) -ca ;  b: -fa + cb (op) 0 => fa >(=) cb
+                ca, cb = a.form.const, b.form.const
+                if a.op == "==" and b.op == "==":
+                    if -ca != cb:
+                        return True
+                    continue
+                strict = a.op == "<" or b.op == "<"
+                # need cb <= fa <= -ca
+                if cb > -ca or (cb == -ca and strict):
+                    return True
+            elif fa == fb and (a.op == "==" or b.op == "=="):
+                # fa = -ca and fa <(=) -cb
+                eq, other = (a, b) if a.op == "==" else (b, a)
+                if other.op == "==":
+                    if eq.form.const != other.form.const:
+                        return True
+                else:
+                    v = -eq.form.const
+                    bound = -other.form.const
+                    if v > bound or (v == bound and other.op == "<"):
+                        return True
+    return False
